@@ -2,7 +2,7 @@
 import os
 import re
 
-from ..facts import walk, strip, strip_casts, lv, show, writes, calls, int_value, root_var
+from ..facts import walk, strip, strip_casts, lv, show, writes, calls, int_value, root_var, step_of
 from ..flow import MustFacts, cond_atoms
 from ..q import (Site, call_sites, site_before, forward_scan, backward_scan, const_eval, str_value, edge_start, must_pass_to_exit,
                  elem_has_call)
@@ -83,7 +83,7 @@ def r12_1(prog, rep):
         raise AnalysisBroken("R12.1: task_cb guard not a linear comparison: %s" % show(gc))
     # which edge is counted? the one from which nsim++ is reachable before exit
     def has_inc(x):
-        return any(kind == "incdec" and lv(l).endswith("nsim") and "++" in n["op"] for l, kind, n in writes(x))
+        return any(lv(l).endswith("nsim") and step_of(kind, n) == 1 for l, kind, n in writes(x))
 
     def has_run(x):
         return elem_has_call(x, "run_task")
@@ -153,9 +153,9 @@ def r12_2(prog, rep):
         for b, i, x, line in f.cfg.all_elems():
             for l, kind, n in writes(x):
                 if lv(l).endswith("->nsim") or lv(l).endswith(".nsim"):
-                    if kind == "incdec" and "++" in n["op"]:
+                    if step_of(kind, n) == 1:
                         incs.append((f, b, i, line))
-                    elif kind == "incdec" and "--" in n["op"]:
+                    elif step_of(kind, n) == -1:
                         decs.append((f, b, i, line))
                     elif kind != "decl":
                         rep.fail(rid, "%s/nsim-write" % f.name, f.loc(line), "nsim is modified other than by ++/--: %s" % show(x))
